@@ -69,6 +69,9 @@ func (r *ctlRep) hold(rule, construct string, pos token.Pos, facts ...string) {
 }
 func (r *ctlRep) violate(rule, construct string, pos token.Pos, msg string, facts ...string) {
 	r.fired[rule] = append(r.fired[rule], construct)
+	if os.Getenv("POLYCHECK_DEBUG") != "" {
+		fmt.Printf("  ctl VIOLATION %s %s: %s\n", rule, construct, msg)
+	}
 }
 func (r *ctlRep) undecide(rule, construct string, pos token.Pos, msg string) {
 	r.und[rule] = append(r.und[rule], construct+": "+msg)
@@ -139,6 +142,8 @@ func run(c *props.Ctx) {
 	}
 	c.R.Extra["serialisation_pairs"] = nRepo
 
+	k.wireAll(pairs)
+	k.metadataVerbatim()
 	k.persist2()
 	k.persist3()
 	k.persist4()
@@ -154,9 +159,9 @@ func run(c *props.Ctx) {
 	}
 	c.R.Floor("PERSIST-1", 30)
 	c.R.Floor("PERSIST-2", 5)
-	c.R.Floor("PERSIST-3", 5)
+	c.R.Floor("PERSIST-3", 3)
 	c.R.Floor("PERSIST-4", 2)
-	c.R.Floor("PERSIST-5", 6)
+	c.R.Floor("PERSIST-5", 20)
 }
 
 var _ = ob.Holds
